@@ -396,3 +396,136 @@ Proof.
   - split; apply Forall2_eq_refl.
 Qed.
 End Transparent.
+
+(* ================================================================ instance: an instance computes from its footprint only (C11) *)
+Section NonInterference.
+Variable D : domain.
+Variable host : nat -> list (val D) -> hostres (val D).
+Variable listened : nat -> bool.
+Variable maxdepth : nat.
+Variable s0 : store D.
+Variables Fm Fg : nat -> Prop.
+
+(* two stores with the code of s0 that agree on the footprint (and on nothing else necessarily) *)
+Definition agree (s1 s2 : store D) : Prop :=
+  code_eq D D s1 s2 /\
+  (forall a, Fm a -> nth_error (s_mems s1) a = nth_error (s_mems s2) a) /\
+  (forall g, Fg g -> nth_error (s_globals s1) g = nth_error (s_globals s2) g).
+
+Lemma nth_error_upd_same {A} (l : list A) i x :
+  nth_error (upd l i x) i = match nth_error l i with Some _ => Some x | None => None end.
+Proof.
+  unfold upd. destruct (Nat.ltb_spec i (length l)) as [Hlt|Hge].
+  - rewrite nth_error_app2 by (rewrite firstn_length; lia).
+    rewrite firstn_length. replace (i - Nat.min i (length l))%nat with O by lia. cbn.
+    destruct (nth_error l i) eqn:E; [reflexivity|]. apply nth_error_None in E. lia.
+  - destruct (nth_error l i) eqn:E; [|reflexivity].
+    assert (nth_error l i <> None) by congruence. apply nth_error_Some in H. lia.
+Qed.
+
+Lemma agree_upd_mems s1 s2 ma m' : agree s1 s2 -> Fm ma ->
+  agree (set_mems D s1 (upd (s_mems s1) ma m')) (set_mems D s2 (upd (s_mems s2) ma m')).
+Proof.
+  intros (Hc & Hm & Hg) Hma. unfold agree, code_eq, set_mems in *; cbn. repeat split; try tauto.
+  intros a Ha. destruct (Nat.eq_dec ma a) as [->|Hne].
+  - rewrite !nth_error_upd_same, (Hm a Ha). reflexivity.
+  - rewrite !nth_error_upd_ne by assumption. apply Hm; assumption.
+Qed.
+
+Lemma agree_upd_globals s1 s2 ga v : agree s1 s2 -> Fg ga ->
+  agree (set_globals D s1 (upd (s_globals s1) ga v)) (set_globals D s2 (upd (s_globals s2) ga v)).
+Proof.
+  intros (Hc & Hm & Hg) Hga. unfold agree, code_eq, set_globals in *; cbn. repeat split; try tauto.
+  intros a Ha. destruct (Nat.eq_dec ga a) as [->|Hne].
+  - rewrite !nth_error_upd_same, (Hg a Ha). reflexivity.
+  - rewrite !nth_error_upd_ne by assumption. apply Hg; assumption.
+Qed.
+
+Lemma agree_simple ii s1 s2 f1 f2 i : ok_frame D s0 Fm Fg s1 ii -> agree s1 s2 -> Rf D D eq f1 f2 ->
+  sres_rel D D eq agree (step_simple D ii s1 f1 i) (step_simple D ii s2 f2 i).
+Proof.
+  intros [Hc0 [Hokm Hokg]] Hag [Hs Hl]. apply Forall2_eq in Hs. apply Forall2_eq in Hl.
+  assert (Ef : f2 = f1) by (destruct f1, f2; cbn in *; congruence). subst f2.
+  pose proof Hag as ((Cf & Ci & Ct) & Hm & Hg).
+  assert (Hi1 : the_inst D s1 ii = the_inst D s0 ii) by (apply (the_inst_code D); exact Hc0).
+  assert (Hi2 : the_inst D s2 ii = the_inst D s0 ii) by (unfold the_inst in *; rewrite <- Ci; exact Hi1).
+  assert (Hmem : the_mem D s2 ii = the_mem D s1 ii).
+  { unfold the_mem. rewrite Hi1, Hi2. destruct (i_mem (the_inst D s0 ii)) as [ma|] eqn:E; [|reflexivity].
+    rewrite (Hm ma (Hokm ma eq_refl)). reflexivity. }
+  assert (Hfm : forall ma m, the_mem D s1 ii = Some (ma, m) -> Fm ma).
+  { intros ma m H. unfold the_mem in H. rewrite Hi1 in H. destruct (i_mem (the_inst D s0 ii)) as [a|] eqn:E; [|discriminate].
+    destruct (nth_error (s_mems s1) a); [|discriminate]. inversion H; subst. apply Hokm. reflexivity. }
+  assert (Rff : forall f, Rf D D eq f f) by (intros f; split; apply Forall2_eq_refl).
+  unfold step_simple. rewrite Hmem, Hi1, Hi2.
+  destruct i; cbn [sres_rel];
+    try (destruct (stack f1) as [|x1 [|x2 [|x3 stk]]]; cbn; auto; fail).
+  all: destruct (stack f1) as [|x1 stk1] eqn:Est; cbn; auto.
+  all: try (destruct stk1 as [|x2 stk2]; cbn; auto).
+  all: try (destruct stk2 as [|x3 stk3]; cbn; auto).
+  all: repeat match goal with
+       | |- context [match d_bin D ?o ?a ?b with _ => _ end] => destruct (d_bin D o a b); cbn; auto
+       | |- context [match nth_error (locals ?ff) ?k with _ => _ end] => destruct (nth_error (locals ff) k); cbn; auto
+       end.
+  (* the remaining goals read or write globals / memory of the footprint *)
+  all: repeat match goal with
+       | |- context [nth_error (i_globals (the_inst D ?S ?I)) ?kk] =>
+           destruct (nth_error (i_globals (the_inst D S I)) kk) as [ga|] eqn:Eg; cbn [sres_rel]; [|reflexivity];
+           try rewrite <- (Hg ga (Hokg _ _ Eg))
+       | |- context [match nth_error (s_globals ?S1) ?g with _ => _ end] =>
+           destruct (nth_error (s_globals S1) g); cbn [sres_rel]
+       | |- context [match the_mem D ?S ?I with _ => _ end] =>
+           destruct (the_mem D S I) as [[ma m]|] eqn:Em; cbn [sres_rel]; [|reflexivity]
+       | |- sres_rel _ _ _ _ (if ?c then _ else _) _ => destruct c; cbn [sres_rel]
+       end.
+  all: cbn [sres_rel]; try reflexivity.
+  all: try (split; [|apply Rff]).
+  all: try exact Hag.
+  all: try (apply agree_upd_globals; [exact Hag|eapply Hokg; first [eassumption|reflexivity]]).
+  all: try (apply agree_upd_mems; [exact Hag|eapply Hfm; first [eassumption|reflexivity]]).
+Qed.
+
+
+Hypothesis closed_call : forall ii k fa ci tp tr nl body, okfp D s0 Fm Fg ii ->
+  nth_error (i_funcs (the_inst D s0 ii)) k = Some fa -> nth_error (s_funcs s0) fa = Some (FWasm ci tp tr nl body) -> okfp D s0 Fm Fg ci.
+Hypothesis closed_indirect : forall ii ta fa ci tp tr nl body, okfp D s0 Fm Fg ii ->
+  i_tab (the_inst D s0 ii) = Some ta -> In (Some fa) (nth ta (s_tabs s0) []) ->
+  nth_error (s_funcs s0) fa = Some (FWasm ci tp tr nl body) -> okfp D s0 Fm Fg ci.
+Hypothesis closed_reenter : forall h args g gargs ci tp tr nl body,
+  host h args = HReenter g gargs -> nth_error (s_funcs s0) g = Some (FWasm ci tp tr nl body) -> okfp D s0 Fm Fg ci.
+
+Lemma agree_log1 s1 s2 e1 e2 : agree s1 s2 -> agree (add_log D s1 e1) (add_log D s2 e2).
+Proof. intros (Hc & Hm & Hg). unfold agree, code_eq, add_log, set_log in *; cbn. tauto. Qed.
+
+Lemma agree_if_log (c : bool) s1 s2 e1 e2 : agree s1 s2 ->
+  agree (if c then add_log D s1 e1 else s1) (if c then add_log D s2 e2 else s2).
+Proof. intros H. destruct c; [apply agree_log1|]; exact H. Qed.
+
+Theorem exec_noninterference fuel depth ii s1 s2 f is :
+  ok_frame D s0 Fm Fg s1 ii -> agree s1 s2 ->
+  out_rel D D eq agree (exec D host listened maxdepth fuel depth ii s1 f is)
+                       (exec D host listened maxdepth fuel depth ii s2 f is).
+Proof.
+  intros Hok Hag.
+  refine (exec_rel D D host host listened listened maxdepth eq agree (ok_frame D s0 Fm Fg)
+            (fun a b H => proj1 H) _ agree_simple _ _ eq_refl _
+            (fun a b h x y H _ => agree_log1 a b _ _ H)
+            (fun a b fa x y H _ => agree_if_log (listened fa) a b _ _ H)
+            (fun a b fa x y H _ => agree_if_log (listened fa) a b _ _ H)
+            (fun a b fa H => agree_if_log (listened fa) a b _ _ H)
+            _ _ _ fuel depth ii s1 s2 f f is Hok Hag _).
+  - intros a b k Hab [Hc Hk]. split; [eapply same_code_trans; eassumption|exact Hk].
+  - intros a b ->. reflexivity.
+  - intros a b ->. reflexivity.
+  - intros h a b Hab. apply Forall2_eq in Hab. subst. destruct (host h b); cbn; try split; try reflexivity; apply Forall2_eq_refl.
+  - intros a k j fa ci tp tr nl body [Hc Hk] Hn Hf. split; [exact Hc|].
+    rewrite (the_inst_code D s0 a k Hc) in Hn. destruct Hc as (Hc1 & _). rewrite Hc1 in Hf.
+    eapply closed_call; eassumption.
+  - intros a k ta fa ci tp tr nl body [Hc Hk] Ht Hin Hf. split; [exact Hc|].
+    rewrite (the_inst_code D s0 a k Hc) in Ht. pose proof Hc as (Hc1 & _ & Hc3). rewrite Hc1 in Hf. rewrite Hc3 in Hin.
+    eapply closed_indirect; eassumption.
+  - intros a k h args g gargs ci tp tr nl body [Hc Hk] Hh Hf. split; [exact Hc|].
+    destruct Hc as (Hc1 & _). rewrite Hc1 in Hf. eapply closed_reenter; eassumption.
+  - split; apply Forall2_eq_refl.
+Qed.
+
+End NonInterference.
